@@ -4,8 +4,8 @@ CONSTANTS
   JAllowFallsThrough = FALSE
   TBlockInverted = FALSE
   TNo172 = FALSE
-  Devs = {"ipv6-internal-destination-routed", "unsupported-allow-item-raises"}
-  Tier = "quick"
-  Impl = "java"
+  Devs = {"names-never-resolved", "ipv6-literal-cut-at-colon", "list-items-compared-as-typed"}
+  Tier = "thorough"
+  Impl = "ts"
 SPECIFICATION Spec
 CHECK_DEADLOCK FALSE
